@@ -6,6 +6,7 @@ import (
 	"regexp"
 	"strconv"
 	"testing"
+	"time"
 
 	"pgregory.net/rapid"
 
@@ -19,15 +20,17 @@ import (
 // observes the write.
 
 type c10Case struct {
-	Cfg  sut.Config `json:"cfg"`
-	Spec PipeSpec   `json:"spec"`
+	Cfg       sut.Config `json:"cfg"`
+	Spec      PipeSpec   `json:"spec"`
+	KillFirst bool       `json:"kill_backend_conns_first,omitempty"` // the nodes drop their connections right before the case: the first requests find a cold pool
 }
 
 var c10Token = regexp.MustCompile(`c(\d+)r(\d+)k\d+`)
 
 func c10Gen(t *rapid.T) c10Case {
 	var c c10Case
-	c.Cfg = rapid.SampledFrom(shardPick([]sut.Config{{ServerConns: 1}, {ServerConns: 1, DisableSlave: true}}, 2)).Draw(t, "cfg")
+	c.Cfg = rapid.SampledFrom(shardPick([]sut.Config{{ServerConns: 1}, {ServerConns: 1, DisableSlave: true}, {ServerConns: 1, Password: "pw"}, {ServerConns: 1, DisableSlave: true, Password: "pw2"}}, 2)).Draw(t, "cfg")
+	c.KillFirst = rapid.IntRange(0, 2).Draw(t, "killfirst") == 0
 	// concentrate on 1-3 nodes
 	nodeSlots := [][]int{{0, 1, 100, 5460}, {5461, 5462, 8000, 10922}, {10923, 12000, 16383}}
 	nn := rapid.IntRange(1, 3).Draw(t, "nnodes")
@@ -71,6 +74,10 @@ func c10Exec(c *c10Case) []Discrepancy {
 }
 
 func c10Run(f *Fixture, c *c10Case) []Discrepancy {
+	if c.KillFirst {
+		f.Cluster.CloseDataConns(-1, false)
+		time.Sleep(15 * time.Millisecond) // let the proxy notice; the next request re-dials (handshake still pending)
+	}
 	// the store semantics for the SET/GET pairs: GET returns what SET wrote only if SET arrived first
 	ds := pipeRunCompare("C10", f, &c.Cfg, &c.Spec, 0)
 	if len(ds) > 0 {
@@ -124,6 +131,12 @@ func c10Classify(c *c10Case) (bool, []string) {
 	}
 	if len(c.Spec.Values) > 0 {
 		cls = append(cls, "set-get-pair")
+	}
+	if c.KillFirst {
+		cls = append(cls, "cold-pool")
+	}
+	if c.Cfg.Password != "" {
+		cls = append(cls, "password")
 	}
 	cls = append(cls, fmt.Sprintf("clients-%d", len(c.Spec.Clients)))
 	return len(c.Spec.Clients) >= 2 && mixed, cls
